@@ -241,7 +241,7 @@ def _main():
         bycls.setdefault(f["class"], []).append(f)
     ordered = []
     while any(bycls.values()):
-        for k in ("panic", "roundtrip", "accept-roundtrip", "decode-panic"):
+        for k in ("bigvalue", "panic", "roundtrip", "accept-roundtrip", "decode-panic"):
             if bycls.get(k):
                 ordered.append(bycls[k].pop(0))
     for f in ordered:
@@ -250,6 +250,8 @@ def _main():
                "how": "./check C14 --replay <this file> feeds the input to ParSignedDataFromProto / UnsignedDataSetFromProto under every duty type and applies the post-decode operations"}
         if f["class"] == "roundtrip":
             what = "%s does not survive %s: %s" % (f.get("entry") or f["type"], f["op"], f["msg"])
+        elif f["class"] == "bigvalue":
+            what = "large valid value %s sent through the real parsigex component / p2p framing with default options: %s" % (f["input"], f["msg"][:200])
         elif f["class"] == "accept-roundtrip":
             what = "%s accepted from %s (%s %s) does not survive re-encoding (%s): %s" % (f["type"], f["format"], f.get("kind", ""), f.get("path", ""), f["op"], f["msg"][:160])
         elif f["class"] == "decode-panic":
@@ -271,7 +273,7 @@ def _main():
                                         "envelope_by_outcome": {k: sum(1 for c in ecs if c["expect"]["kind"] == k) for k in ("ok", "okA", "err", "panic")},
                                         "dispatch_accepted": sum(1 for c in dcs if c["expect"]),
                                         "model_mismatches": n_rej,
-                                        "exploration_findings_by_class": {k: sum(1 for f in o["findings"] if f["class"] == k) for k in ("panic", "roundtrip", "accept-roundtrip", "decode-panic")}}
+                                        "exploration_findings_by_class": {k: sum(1 for f in o["findings"] if f["class"] == k) for k in ("bigvalue", "panic", "roundtrip", "accept-roundtrip", "decode-panic")}}
     R.coverage["exploration"] = {"label": "exploration, not proof: crash-freedom half",
                                  "json_mutants": st.get("json_mutants", 0), "ssz_mutants": st.get("ssz_mutants", 0),
                                  "arbitrary_inputs": st.get("arbitrary_inputs", 0) + st.get("fixed_size_inputs", 0),
